@@ -339,7 +339,7 @@ func runC08(c *core.Ctx, r *core.Result) {
 				r.NonTrivial(key)
 				run := world().Fork()
 				b := run.B
-				b.Add(drive.BlockSpec{Rates: R1(), OPRPayTo: kit.AddrStr(KM), TX: []fake.Entry{b.Tx(KA, sb.txs...)}})
+				b.Add(drive.BlockSpec{Rates: R1(), OPRPayTo: kit.AddrStr(KM), TX: []fake.Entry{sb.entry(b)}})
 				b.Add(drive.BlockSpec{Rates: R2(), OPRPayTo: kit.AddrStr(KM)})
 				b.Add(drive.BlockSpec{Rates: R1(), OPRPayTo: kit.AddrStr(KM)})
 				out := run.Sync()
@@ -389,7 +389,20 @@ func sprSet(era drive.Era, h uint32, rates kit.Rates, staker []byte, signKey int
 	return out
 }
 
+// entry signs the batch for the builder's next block (by A unless the batch names its signers, one per transaction).
+func (sb c08Batch) entry(b *drive.Builder) fake.Entry {
+	if len(sb.signers) == 0 {
+		return b.Tx(KA, sb.txs...)
+	}
+	var ss []kit.Signer
+	for _, k := range sb.signers {
+		ss = append(ss, kit.Key(k))
+	}
+	return kit.SignContent(b.Chain.IDs.TX, kit.BatchJSON(sb.txs...), b.Salt(), ss...)
+}
+
 type c08Batch struct {
+	signers []int
 	name, class string
 	txs         []kit.Tx
 }
@@ -397,7 +410,19 @@ type c08Batch struct {
 func c08SemanticBatches(era drive.Era) []c08Batch {
 	A, B := AddrA, AddrB
 	var out []c08Batch
-	add := func(name, class string, txs ...kit.Tx) { out = append(out, c08Batch{name, class, txs}) }
+	add := func(name, class string, txs ...kit.Tx) { out = append(out, c08Batch{name: name, class: class, txs: txs}) }
+	// chained batches: every input is covered on its own, the sum of the inputs is not, and in
+	// sequence the batch is covered because an earlier transaction replenishes the spender
+	U := uint64(200e8) // A's pUSD after FundStd from 2.0 on (1000 PEG at 0.2)
+	if era.Base+1 < era.V20 {
+		U = 3000e8 // 1000 pFCT at 3.0
+	}
+	x := U / 10 * 6
+	add("chained-self-transfer", "chained", kit.Transfer(A, "pUSD", x, A), kit.Transfer(A, "pUSD", x, B))
+	add("chained-self-transfer-3", "chained", kit.Transfer(A, "pUSD", x, A), kit.Transfer(A, "pUSD", x, A), kit.Transfer(A, "pUSD", x, AddrC))
+	// (a batch has exactly one input address, so the replenishing transaction is a self-transfer or a conversion)
+	add("chained-conversion-roundtrip", "chained", kit.Conversion(A, "pUSD", x, "pJPY"), kit.Conversion(A, "pUSD", x/2, "pEUR"))
+	add("overspend-in-sum", "chained", kit.Transfer(A, "pUSD", x, B), kit.Transfer(A, "pUSD", x, AddrC))
 	add("zero-transfer", "zero-amount", kit.Transfer(A, "pUSD", 0, B))
 	add("zero-conversion", "zero-amount", kit.Conversion(A, "pUSD", 0, "pEUR"))
 	add("self-transfer", "self", kit.Transfer(A, "pUSD", 5e8, A))
